@@ -643,12 +643,17 @@ class PilotManager(rpu.ClientComponent):
 
         """
 
+        # NOTE: pilot state callbacks are invoked while `self._pilots_lock` is
+        #       held (see `_update_pilot`): this method must not wait for that
+        #       lock, otherwise a slow application callback would delay it
+        #       beyond its timeout.  It only reads, so it works on a snapshot.
+        pilots = dict(list(self._pilots.items()))
+
         if not uids:
-            with self._pilots_lock:
-                uids = list()
-                for uid,pilot in self._pilots.items():
-                    if pilot.state not in rps.FINAL:
-                        uids.append(uid)
+            uids = list()
+            for uid,pilot in pilots.items():
+                if pilot.state not in rps.FINAL:
+                    uids.append(uid)
 
         if not state:
             states = rps.FINAL
@@ -667,13 +672,11 @@ class PilotManager(rpu.ClientComponent):
         start    = time.time()
         to_check = None
 
-        with self._pilots_lock:
+        for uid in uids:
+            if uid not in pilots:
+                raise ValueError('pilot %s not known' % uid)
 
-            for uid in uids:
-                if uid not in self._pilots:
-                    raise ValueError('pilot %s not known' % uid)
-
-            to_check = [self._pilots[uid] for uid in uids]
+        to_check = [pilots[uid] for uid in uids]
 
         # We don't want to iterate over all pilots again and again, as that
         # would duplicate checks on pilots which were found in matching states.
@@ -707,8 +710,7 @@ class PilotManager(rpu.ClientComponent):
 
         # grab the current states to return
         state = None
-        with self._pilots_lock:
-            states = [self._pilots[uid].state for uid in uids]
+        states = [pilots[uid].state for uid in uids]
 
         # done waiting
         if ret_list: return states
